@@ -33,8 +33,8 @@ typedef struct {
   uint64_t steps, programs;
 } acov_t;
 static acov_t *cov;
-enum { P_CACHE_HIT, P_EVICT_17TH, P_BYPASS_BIG, P_EQ_THRESHOLD, P_ZERO_AREA, P_HDR_BLOCK2, P_HDR_BLOCK16, P_HDR_FALLBACK, P_HDR_BLOCK_UNLINK, P_REINIT, P_WINDOW_OF_WINDOW, P_RECYCLED_DIRTY, P_LIVE_1024, P_TOUCH, P_FREE_OWNER_BEFORE_REUSE, P_NPROBES };
-static const char *p_names[P_NPROBES] = { "exact_size_cache_hit", "seventeenth_block_evicted", "block_above_threshold_bypasses_cache", "block_at_threshold", "zero_area_matrix", "second_header_block", "sixteen_header_blocks", "header_fallback_malloc", "header_block_unlinked", "fini_init_cycle", "window_of_window", "recycled_dirty_block_handed_out", "more_than_1024_live_headers", "arithmetic_touch", "freed_block_reused" };
+enum { P_CACHE_HIT, P_EVICT_17TH, P_BYPASS_BIG, P_EQ_THRESHOLD, P_ZERO_AREA, P_HDR_BLOCK2, P_HDR_BLOCK16, P_HDR_FALLBACK, P_HDR_BLOCK_UNLINK, P_REINIT, P_WINDOW_OF_WINDOW, P_RECYCLED_DIRTY, P_LIVE_1024, P_TOUCH, P_NPROBES };
+static const char *p_names[P_NPROBES] = { "exact_size_cache_hit", "seventeenth_block_evicted", "block_above_threshold_bypasses_cache", "block_at_threshold", "zero_area_matrix", "second_header_block", "sixteen_header_blocks", "header_fallback_malloc", "header_block_unlinked", "fini_init_cycle", "window_of_window", "recycled_dirty_block_handed_out", "more_than_1024_live_headers", "arithmetic_touch" };
 
 static int prev_state = -1;
 static int count_ledger_size(size_t sz);
